@@ -1,4 +1,4 @@
-HOOK_COMMITS = ["4a5d5ec", "354857d", "e9ccdd0", "ed88e47", "f886bcb"]
+HOOK_COMMITS = ["4a5d5ec", "354857d", "e9ccdd0", "ed88e47", "f886bcb", "8592605"]
 NOT_CLAIMED = {}
 META = {
     "C01": {
